@@ -10,7 +10,7 @@ func setupScope(c *Ctx) (*Roots, map[*ssa.Function]*ssa.Function, []*ssa.Functio
 
 func init() {
 	register(&propDef{
-		ID: "C19",
+		ID:      "C19",
 		Explain: "Rules over every SetupFunc4/SetupFunc6 of the program (enumerated by type) and everything first-party they reach: the C01 safety rule set (NILPATH, NILSRC, BOUNDS incl. every args[k] access needing a dominating len(args) fact, MAPWRITE, ASSERT, FUNCNIL, PANIC) so that a bad argument vector yields an error, not a panic (SETUP.NOPANIC); every address parsed from configuration text has had its family (and, for networks kept by a DHCPv4 setup, its mask width) examined on every accepting path — the structural necessary condition for 'arguments that cannot be honoured on the wire are rejected at start-up' (SETUP.FAMILY); every successful return carries a non-nil handler (SETUP.HANDLER-OR-ERROR); LoadPlugins aborts on setup errors (SETUP.ABORT = C13.CHAIN.LOAD); the handlers returned are covered by C01's rules.",
 		Trusted: trustedBase,
 		Assume:  []string{"round-trip equality of replies through the codec is not decided", "value ranges that serialise lossily but safely (mtu > 65535, negative durations) are outside the stated clause"},
@@ -25,7 +25,7 @@ func init() {
 			}
 			_, v6fns := ReachFirstParty(c.P, ro.Setups6)
 			for _, f := range v6fns {
-				if f.Name() != "setupFile" && f.Name() != "loadFromFile" {
+				if !isAnchor(f, "setupFile") && !isAnchor(f, "loadFromFile") {
 					delete(v4, f) // shared helpers are checked under the weaker (family only) requirement
 				}
 			}
@@ -46,7 +46,7 @@ func init() {
 
 func init() {
 	register(&propDef{
-		ID: "C18",
+		ID:      "C18",
 		Explain: "Rules over config.Load and everything first-party it reaches: the C01 safety rule set incl. the two panic(\"BUG\") sites shown unreachable by constant propagation of the version parameter over all call chains, and the zone split indices bounded by the LastIndexByte fact (CFG.NOPANIC); every abstract exit of getListenAddress, explored once per protocol version, is compared with the table {empty host → wildcard of the version, unparseable → error, wrong family → error, empty port → 67/547 by constant value, bad port → error, zone passed through} (CFG.ADDR); parseListen rejects listen+interface on every path, uses defaults only when neither is set, and otherwise appends exactly one (or the multicast expansion of one) address per configured item, aborting on parse errors (CFG.LISTEN, per-iteration obligations); getPlugins/Load/parseConfig error and success shapes (CFG.PLUGINS); parsePlugins order (C13.CHAIN.PARSE-ORDER).",
 		Trusted: trustedBase,
 		Assume:  []string{"YAML parsing and cast conversions (viper/cast/yaml, including their own panics)", "net.SplitHostPort's string grammar beyond bounds safety", "interface enumeration"},
